@@ -327,6 +327,15 @@ def run(ctx):
                 run.finding(Finding(R6, fid, "the highest child index recorded for an account can be lowered by a later output with a smaller index (after the restore the next path would not lie beyond every path found)", site=c.site_of(f, b)))
     R7 = "C15.R7"
     run.rule(R7, "the child index a scan restores covers every output found on chain, not only those missing in this run (an interrupted restore leaves outputs that a later scan finds present)", floor=1)
+    scan_index_covers_all(ctx, R7)
+    run.not_decided += ["uniqueness over all histories/restarts as such (R1-R3 are the conditions under which the counter discipline implies it)", "LMDB durability of the committed index"]
+
+def scan_index_covers_all(ctx, R7):
+    """scan(): the per-account maximum that feeds the restored child index is updated for every output found on chain and
+    reaches the index step unshrunk (an interrupted restore is finished by the next scan)."""
+    run = ctx.run
+    db = ctx.db
+    MAP_T = "HashMap<grin_keychain::types::Identifier, u32>"
     sc7 = ctx.fn(SCAN + "scan")
     if sc7 is None:
         run.error("C15.R7: scan not found")
@@ -359,7 +368,13 @@ def run(ctx):
             back = any(h in sc7.succ(b) for b in par)
             if not back and wr:
                 covered = True
-        run.instance(R7, {"fn": "scan", "obligation": "every output found on chain counts towards the restored child index (each iteration of a loop over collect_chain_outputs' result updates the per-account maximum)", "loops": [c.site_of(sc7, h) for h in heads], "map writes": len(wr)}, held=covered)
+        # ... and what was gathered reaches the index step: nothing empties or replaces the map on the way
+        shrink = [b for b, t in sc7.calls() if (t.get("f") or "").startswith("std::collections::hash::map::HashMap::<K, V, S, A>::") and (t.get("f") or "").split("::")[-1] in ("clear", "remove", "retain", "drain", "remove_entry") and vf.op_place(t["a"][0]) and MAP_T in (sc7.locals[vf.op_place(t["a"][0])[0]].get("ty") or "")]
+        owners = [l for l, loc in enumerate(sc7.locals) if (loc.get("ty") or "").startswith("std::collections::hash::map::HashMap<") and MAP_T in loc["ty"] and loc.get("u")]
+        redefs = [l for l in owners if len(sc7.defs().get(l, [])) > 1]
+        if shrink or redefs:
+            covered = False
+        run.instance(R7, {"fn": "scan", "obligation": "every output found on chain counts towards the restored child index (each iteration of a loop over collect_chain_outputs' result updates the per-account maximum; the map is neither emptied nor replaced before the index step)", "loops": [c.site_of(sc7, h) for h in heads], "map writes": len(wr), "emptied/replaced at": [c.site_of(sc7, b) for b in shrink]}, held=covered)
         if not covered:
             run.finding(Finding(R7, sc7.id, "the restored child index only counts outputs restored in this run: after an interrupted restore (outputs committed, index not yet) no later scan raises the index and paths that are on chain are handed out again", site=sc7.loc()))
-    run.not_decided += ["uniqueness over all histories/restarts as such (R1-R3 are the conditions under which the counter discipline implies it)", "LMDB durability of the committed index"]
+
